@@ -13,8 +13,8 @@ def gather(ctx, thorough):
     stats = {}
     cfgs = [("nc2", "NeoVM_C14.cfg", {}),
             ("nc3", "NeoVM_C14.cfg", {"NC": "3", "HeapMode": '"all"' if thorough else '"arr"', "WithMutations": "FALSE"}),
-            ("chain", "NeoVM_C14.cfg", {"NC": "13", "HeapMode": '"chain"', "WithMutations": "FALSE",
-                                        "ChainLens": "{1, 2, 3, 9, 10, 11, 12, 13}" if thorough else "{10, 11, 12}"})]
+            ("chain", "NeoVM_C14.cfg", {"NC": "13" if thorough else "11", "HeapMode": '"chain"', "WithMutations": "FALSE",
+                                        "ChainLens": "{1, 2, 3, 9, 10, 11, 12, 13}" if thorough else "{10, 11}"})]
     for name, cfg, consts in cfgs:
         r, heaps, m = nv.tlc_rows(ctx, cfg, consts or None, workers=None, coverage=(thorough and name == "nc2"))
         if r.status == "ok" and thorough and name == "nc2":
@@ -68,7 +68,7 @@ def run(ctx):
     res, deaths = nv.run_children_parallel(ctx, binary, "TestVerifShapes", fast, "fast", 300, nproc)
     ctx.log("fast batch: %d heaps, %d results, %d child deaths" % (len(fast), len(res), deaths))
     # predicted slow / fatal items: seeded sample, one small child each
-    n_slow, n_crash = (200, 48) if ctx.thorough else (24, 12)
+    n_slow, n_crash = (200, 48) if ctx.thorough else (12, 6)
     by_class = {}
     for r in crash_nat:
         by_class.setdefault(nv.marshal_loop_kinds(r["cells"]), []).append(r)
